@@ -35,6 +35,16 @@ struct E {
 }
 
 fn atom(ch: &mut Choices) -> String {
+    let a = atom0(ch);
+    // tagged values: the tags are part of the value the block yields
+    match ch.weighted(&[8, 1, 1]) {
+        0 => a,
+        1 => format!("{} {} {} insert-tag", a, atom0(ch), ["\"unit\"", "\"a\"", "3"][ch.below(3)]),
+        _ => format!("{} ^{{ {} \"t\" {} \"u\" ^}}", a, atom0(ch), ch.range(0, 9)),
+    }
+}
+
+fn atom0(ch: &mut Choices) -> String {
     match ch.weighted(&[8, 3, 2, 2, 2, 1, 1, 1]) {
         0 => format!("{}", ch.range(-9, 99)),
         1 => xs::str_lit(val::STRS[ch.below(val::STRS.len())]),
@@ -46,7 +56,14 @@ fn atom(ch: &mut Choices) -> String {
         4 => format!("{{ {} \"k\" }}", ch.range(0, 9)),
         5 => ["true", "false"][ch.below(2)].to_string(),
         6 => "nil".to_string(),
-        _ => ["1.5", "0.25", "-2.0"][ch.below(3)].to_string(),
+        _ => {
+            let r = ["1.5", "0.25", "-2.0", "100.5", "0.0"];
+            if ch.bool() {
+                r[ch.below(r.len())].to_string()
+            } else {
+                format!("{} {} {}", r[ch.below(r.len())], r[ch.below(r.len())], ["+", "-", "*"][ch.below(3)])
+            }
+        }
     }
 }
 
@@ -168,9 +185,13 @@ pub fn case(ch: &mut Choices, ctx: &CaseCtx) -> CaseOut {
         return out;
     }
     let _ = base.read_stdout();
-    let mode = ch.weighted(&[10, 3]);
+    let mode = ch.weighted(&[10, 3, 3]);
     if mode == 1 {
         sealing(ch, ctx, &base, npre, &mut out);
+        return out;
+    }
+    if mode == 2 {
+        blind(ch, ctx, &pre_src[pre.len()..], &mut out);
         return out;
     }
     // ---- hole position -------------------------------------------------------------
@@ -204,7 +225,7 @@ pub fn case(ch: &mut Choices, ctx: &CaseCtx) -> CaseOut {
         match run_eval(&xs::fresh(), &e.text) {
             Ok(o) => {
                 let rev: Vec<&Cell> = alone.stack.iter().rev().collect();
-                if o.kind != Kind::Ok || o.stack.len() != rev.len() || o.stack.iter().zip(rev.iter()).any(|(a, b)| a != *b) {
+                if o.kind != Kind::Ok || o.stack.len() != rev.len() || o.stack.iter().zip(rev.iter()).any(|(a, b)| a != *b || !val::veq_tags(&val::of_cell(a), &val::of_cell(b))) {
                     out.fail("a meta block computes other values than the same code evaluated normally", format!("e: {}\nmeta (last first): [{}]\nnormal: [{}] {}", e.text, stack_str(&alone.stack), stack_str(&o.stack), o.res));
                     return out;
                 }
@@ -295,7 +316,7 @@ pub fn case(ch: &mut Choices, ctx: &CaseCtx) -> CaseOut {
                     match r {
                         Ok(r) => {
                             let oc = observe(&mut xc, &r);
-                            if oc.res != ob.res || oc.stack.len() != ob.stack.len() || oc.stack.iter().zip(ob.stack.iter()).any(|(a, b)| a != b) || oc.vars != ob.vars || oc.stdout != ob.stdout || oc.heap != ob.heap {
+                            if oc.res != ob.res || oc.stack.len() != ob.stack.len() || oc.stack.iter().zip(ob.stack.iter()).any(|(a, b)| a != b || !val::veq_tags(&val::of_cell(a), &val::of_cell(b))) || oc.vars != ob.vars || oc.stdout != ob.stdout || oc.heap != ob.heap {
                                 fail(&mut out, "compile followed by run differs from eval", format!("eval: {} [{}]\ncompile+run: {} [{}]", ob.res, stack_str(&ob.stack), oc.res, stack_str(&oc.stack)));
                             }
                         }
@@ -402,6 +423,76 @@ fn sealing(ch: &mut Choices, ctx: &CaseCtx, base: &Xstate, npre: usize, out: &mu
     out.class("sealing");
     out.class(name);
     out.hash = hash_of(&(full.clone(), npre));
+    if ctx.want_render || out.fail.is_some() {
+        out.render = Some(full);
+    }
+}
+
+/// sealing, metamorphic form: a block made of arbitrary tokens (any dictionary word, counts, literals) behaves the same
+/// whatever the surrounding data stack holds - same result, output, variables, dictionary, and the surrounding
+/// items stay where they were, below whatever the program left
+fn blind(ch: &mut Choices, ctx: &CaseCtx, prelude: &str, out: &mut CaseOut) {
+    let outer: Vec<String> = (0..ch.below(4) + 1).map(|i| if ch.chance(1, 4) { format!("[ {} ]", 70 + i) } else { format!("{}", 70 + i) }).collect();
+    let mut with = xs::fresh();
+    let mut without = xs::fresh();
+    for (x, src) in [(&mut with, format!("{} {}", outer.join(" "), prelude)), (&mut without, prelude.to_string())] {
+        x.set_insn_limit(Some(100_000)).unwrap();
+        if !matches!(guard(|| x.eval(&src)), Ok(Ok(()))) {
+            out.fail("prelude failed", src);
+            return;
+        }
+        let _ = x.read_stdout();
+    }
+    let words: Vec<String> = with.word_list().iter().map(|w| w.to_string()).collect();
+    const STACKY: [&str; 14] = ["collect", "drop", "swap", "rot", "over", "dup", "nip", "depth", "unbox", "+", "concat", "length", "get", "nth"];
+    // (words that end the block are left out: what follows them runs in the surrounding program, by design)
+    const SKIP: [&str; 11] = ["bye", "exit", "include", "require", "random", "random-bits", "exec-piped", "read-all", "#)", "~)", "endenum"];
+    let n = ch.below(6) + 1;
+    let mut toks = Vec::new();
+    for _ in 0..n {
+        toks.push(match ch.weighted(&[4, 2, 4, 3]) {
+            0 => format!("{}", ch.range(0, 5)),
+            1 => atom0(ch),
+            2 => STACKY[ch.below(STACKY.len())].to_string(),
+            _ => {
+                let w = &words[ch.below(words.len())];
+                if SKIP.contains(&w.as_str()) || w.contains("write") { "dup".to_string() } else { w.clone() }
+            }
+        });
+    }
+    let block = format!("#( {} #)", toks.join(" "));
+    let full = match ch.below(4) {
+        0 => block.clone(),
+        1 => format!("[ 1 {} ]", block),
+        2 => format!(": sw {} ; sw", block),
+        _ => format!("1 2 {} 3", block),
+    };
+    let (a, b) = match (run_eval(&with, &full), run_eval(&without, &full)) {
+        (Ok(a), Ok(b)) => (a, b),
+        (Err(pm), _) | (_, Err(pm)) => {
+            out.fail(format!("panic: {}", pm), full);
+            return;
+        }
+    };
+    let no = outer.len();
+    let base_items = stack_str(&xs::stack(&with));
+    let fail = |out: &mut CaseOut, what: &str, detail: String| {
+        out.fail(format!("sealing/blind: {}", what), format!("{}\nsource: {}\nouter stack: {}", detail, full, outer.join(" ")));
+    };
+    if a.kind != b.kind || a.res != b.res {
+        fail(out, "the outcome depends on the surrounding stack", format!("with items: {}   without: {}", a.res, b.res));
+    } else if a.stack.len() != b.stack.len() + no || stack_str(&a.stack[..no]) != base_items || stack_str(&a.stack[no..]) != stack_str(&b.stack) || a.stack[no..].iter().zip(b.stack.iter()).any(|(x, y)| !val::veq_tags(&val::of_cell(x), &val::of_cell(y))) {
+        fail(out, "the surrounding items were read, moved or removed", format!("with items: [{}]   without: [{}]", stack_str(&a.stack), stack_str(&b.stack)));
+    } else if a.stdout != b.stdout || a.vars != b.vars || a.words != b.words || a.heap != b.heap {
+        fail(out, "output, variables or dictionary depend on the surrounding stack", format!("{:?} vs {:?}", a.stdout, b.stdout));
+    }
+    out.nontrivial = true;
+    out.class("sealing");
+    out.class("blind-to-outer-stack");
+    if a.kind == Kind::Ok {
+        out.class("blind-block-succeeds");
+    }
+    out.hash = hash_of(&(full.clone(), no));
     if ctx.want_render || out.fail.is_some() {
         out.render = Some(full);
     }
